@@ -1386,7 +1386,7 @@ class Planner:
                         for what in r.sample(["sig", "hash", "args", "coeffs", "str"], 2):
                             self.emit(["obs", None, what, g if g is not None else bf], keep_failed=True)
             return None
-        if k == 9 and r.random() < 0.3:
+        if k == 9 and r.random() < 0.3 and self.cfg.get("numeric_twins", True):
             # a twin of the form whose measure data is numerically equal but of another type
             # (degree 2 / 2.0, subdomain id 1 / True), then a comparison between the two
             e = self.scalar(M, 2)
@@ -1857,6 +1857,29 @@ class Planner:
                     if t is not None:
                         nd.setdefault(gq, []).append(t)
                         pairs.append([gq, t, "term:" + what])
+        # variables: equal label and expression / other expression / other label
+        for M in self.meshes[:1]:
+            sc = [t for t in M["coefs"] + M["consts"] if self.shape(t) == ()]
+            if len(sc) >= 2:
+                k_ = r.choice([3, 9, 10, 41])
+                L1 = self.call("ufl.classes.Label", kind="label", count=k_)
+                L2 = self.call("ufl.classes.Label", kind="label", count=k_)
+                L3 = self.call("ufl.classes.Label", kind="label", count=k_ + 1)
+                if None not in (L1, L2, L3):
+                    v1 = self.call("ufl.classes.Variable", self.ref(sc[0]), self.ref(L1))
+                    for what, e_, L_ in (("same", sc[0], L2), ("var-expr", sc[1], L1), ("var-label", sc[0], L3)):
+                        v = self.call("ufl.classes.Variable", self.ref(e_), self.ref(L_))
+                        if v1 is None or v is None:
+                            continue
+                        nd.setdefault(v1, []).append(v)
+                        pairs.append([v1, v, "term:" + what])
+                        a_ = self.call("operator.pow", self.ref(v1), 2)
+                        b_ = self.call("operator.pow", self.ref(v), 2)
+                        if a_ is not None and b_ is not None:
+                            d1 = self.call("ufl.diff", self.ref(a_), self.ref(v1))
+                            d2 = self.call("ufl.diff", self.ref(b_), self.ref(v))
+                            if d1 is not None and d2 is not None:
+                                pairs.append([d1, d2, "term:" + what + ":nested"])
         # the same mesh sequence given as a list and as a tuple; coefficients on it
         same = [m for m in self.meshes if m["cell"] == self.meshes[0]["cell"] and m["gdim"] == self.meshes[0]["gdim"] and not m.get("msq")]
         if len(same) >= 2 and r.random() < 0.7:
@@ -2096,6 +2119,9 @@ class Planner:
         r = self.rng
         self.cfg.setdefault("n_steps", r.randint(0, 5))
         self.cfg.setdefault("abort_p", 0.0)
+        # user data (metadata values, sub-domain ids) that is equal in Python but of another
+        # numeric type (1 / True / 1.0) is one input for C13: DESIGN 4.2, domain restrictions
+        self.cfg["numeric_twins"] = False
         res = self.pool_program()
         pool = []
         # sub-expressions of the forms join the pool (every node kind, incl. MultiIndex)
